@@ -274,7 +274,7 @@ def engine_a(prop, tier, seed):
             bcov, violation = big_run(prop, tier, seed, t0)
             io_cov.update(bcov)
             continue
-        if sub_engine in ("huge", "zfull", "reloc"):
+        if sub_engine in ("huge", "zfull", "reloc", "tiny"):
             scov, violation = simple_sub_run(prop, tier, seed, t0, sub_engine)
             io_cov.update(scov)
             continue
@@ -342,11 +342,12 @@ def engine_a(prop, tier, seed):
     sys.exit(0)
 
 
-SUB_ENGINES = {"C01": ["io", "huge", "freestanding"], "C02": ["zst", "zfull", "huge", "freestanding"], "C03": ["zst", "freestanding"], "C04": ["io"], "C07": ["huge", "zst"], "C09": ["own"], "C10": ["zst", "own"], "C11": ["io", "big"], "C12": ["big"], "C20": ["reloc"]}
+SUB_ENGINES = {"C01": ["io", "huge", "freestanding"], "C02": ["zst", "zfull", "huge", "freestanding"], "C03": ["zst", "freestanding", "tiny"], "C04": ["io"], "C07": ["huge", "zst"], "C09": ["own"], "C10": ["zst", "own"], "C11": ["io", "big"], "C12": ["big", "tiny"], "C20": ["reloc"]}
 
 
 SIMPLE_LABEL = {"huge": "byte_buffers_at_capacities_around_2^32_cases_", "zfull": "full_zero_sized_buffers_at_extreme_capacities_cases_",
-                "reloc": "relocation_cases_over_plain_elements_of_1_2_3_4_8_24_bytes_"}
+                "reloc": "relocation_cases_over_plain_elements_of_1_2_3_4_8_24_bytes_",
+                "tiny": "one_and_two_byte_non_copy_element_cases_"}
 
 
 def simple_sub_run(prop, tier, seed, t0, engine):
@@ -507,7 +508,7 @@ def replay_cmd(prop, path):
         bad = False
         for v in variants:
             build(v)
-            if meta.get("engine") in ("io", "zst", "huge", "zfull", "reloc"):
+            if meta.get("engine") in ("io", "zst", "huge", "zfull", "reloc", "tiny"):
                 p = subprocess.run([binary(v), "replay-" + meta["engine"], path], stdout=subprocess.PIPE, stderr=subprocess.STDOUT, text=True, timeout=120)
                 r, out = ("ok" if p.returncode == 0 else "fail"), p.stdout
             else:
